@@ -1,5 +1,6 @@
 import RepeVerif.Lemmas.Beve
 import RepeVerif.Gen.Numeric
+import RepeVerif.Gen.Wire
 /-!
 # C08 — Bulk numeric bodies are bit-identical to the generic encoding and decode exactly
 
@@ -12,7 +13,8 @@ import RepeVerif.Gen.Numeric
 > otherwise, for every query length, and a body of the wrong element type or format is rejected rather
 > than reinterpreted.
 
-Elements are opaque byte blocks (`List Bytes`, every block of the element width: `Vec t w xs`), so
+Elements are opaque byte blocks (`List Bytes`; `Vec t w xs`: a `BeveTypedSlice` element type, every block
+`w` bytes, fewer than 2^62 elements — the capacity of BEVE's SIZE — and a payload that fits `usize`), so
 "bit-for-bit" is equality of blocks and NaN payloads, infinities and extreme integers are just blocks.
 `Gen.numericFacts` are re-extracted from `/repo` on every run (`extract/numeric.py`).
 
@@ -31,6 +33,9 @@ clause → theorem
 * marker dispatch cannot misroute ................ `marker_is_beve's`, `regular_never_marker`, `regular_body_on_ref_route`
 * wrong element type rejected .................... `wrong_type_rejected`, `wrong_form_rejected`
 * wrong body format rejected ..................... `wrong_format_rejected`
+* aligned request as a wire frame (with C01) ..... `aligned_frame_any_capacity`
+* the client entry points send that frame ........ `client_aligned_request_is_builder_frame`, `client_aligned_request_borrowable`, `client_bulk_request_is_regular`
+* the dependency's layout constants .............. `beve_layout_constants`
 * a whole call echoes the vector ................. `call_echo`
 -/
 namespace Repe.C08
@@ -49,6 +54,11 @@ theorem sizeLen_eq (n : Nat) : (writeSize n).length = sizeLen n := writeSize_len
 theorem size_62_bits_sharp : readSize (writeSize (2^62)) = .ok (0, []) := by decide
 
 example : readSize (writeSize 16384 ++ [7]) = .ok (16384, [7]) := by decide
+
+/-- Both sides of every width boundary of the codec (2^6, 2^14, 2^30) and the largest count. -/
+example : ([63, 64, 16383, 16384, 2^30 - 1, 2^30, 2^62 - 1].map fun n =>
+      ((writeSize n).length, readSize (writeSize n) == .ok (n, []))) =
+    [(1, true), (2, true), (2, true), (4, true), (4, true), (8, true), (8, true)] := by decide
 
 /-! ### regular and complex arrays -/
 
@@ -70,7 +80,7 @@ theorem complex_size_closed_form {t : ElemTy} {xs : List Bytes} (hb : Blocks (2 
 
 /-- Non-vacuity: three f32 elements — a signalling NaN with payload, -inf, the largest finite. -/
 example : Vec ⟨0, 2⟩ 4 [[0x01, 0x00, 0x80, 0x7f], [0x00, 0x00, 0x80, 0xff], [0xff, 0xff, 0x7f, 0x7f]] :=
-  ⟨by decide, by decide, by decide⟩
+  ⟨by decide, by decide, by decide, by decide⟩
 
 example : readTyped ⟨0, 2⟩ (encodeTyped ⟨0, 2⟩ [[0x01, 0x00, 0x80, 0x7f], [0x00, 0x00, 0x80, 0xff]]) =
     .ok [[0x01, 0x00, 0x80, 0x7f], [0x00, 0x00, 0x80, 0xff]] := by decide
@@ -169,7 +179,7 @@ example : decodeTypedSlice { F with emptyGeneric := true } BEVE ⟨0, 3⟩ (enco
 
 /-- Non-vacuity (complex): two `Complex<i16>` elements, blocks of width 4. -/
 example : Vec ⟨1, 1⟩ (2 * (ElemTy.mk 1 1).width) [[0x00, 0x80, 0xff, 0x7f], [1, 0, 0xff, 0xff]] :=
-  ⟨by decide, by decide, by decide⟩
+  ⟨by decide, by decide, by decide, by decide⟩
 
 /-! ### aligned form -/
 
@@ -298,7 +308,7 @@ theorem wrong_type_rejected {t t' : ElemTy} (hne : t ≠ t') {xs : List Bytes} (
   constructor
   · intro v
     have h1 := readTypedRaw_encode (t := t) v.valid xs.length xs.flatten []
-      (v.len_lt t'.width_pos) v.blocks.flatten_length (by have := v.small; omega)
+      (v.len_lt t'.width_pos) v.blocks.flatten_length v.bytes
     simp only [List.append_nil, hne, if_false] at h1
     have hraw : bulkReadTypedRaw F t (bodyTypedSlice t' xs) = .error .mismatch := by
       unfold bulkReadTypedRaw bodyTypedSlice
@@ -318,7 +328,7 @@ theorem wrong_type_rejected {t t' : ElemTy} (hne : t ≠ t') {xs : List Bytes} (
     · simp [sliceRefHandler, hs, decodeTypedSliceRefBody, hma, ha1, ha2, Except.map]
   · intro v
     have h1 := readComplexRaw_encode (t := t) v.valid xs.length xs.flatten []
-      (v.len_lt (by have := t'.width_pos; omega)) v.blocks.flatten_length (by have := v.small; omega)
+      (v.len_lt (by have := t'.width_pos; omega)) v.blocks.flatten_length v.bytes
     simp only [List.append_nil, hne, if_false] at h1
     have hraw : bulkReadComplexRaw F t (bodyComplexSlice t' xs) = .error .mismatch := by
       unfold bulkReadComplexRaw bodyComplexSlice
@@ -429,6 +439,119 @@ theorem complex_streaming_eq_buffered (h : Header) (q : Bytes) {t : ElemTy} {xs 
   · simp only [writeMessageComplexSlice, writeMessageComplexSliceRaw, writeMessageStreaming,
       bodyComplexSlice, ← hl]
     rfl
+
+/-! ### composition with the wire model (C01): the aligned request as a frame -/
+
+/-- The request `Message::builder().id(..)…query_bytes(q).body_aligned_typed_slice(xs).build()`. -/
+def alignedRequest (id : Nat) (nf : Bool) (ec qf : Nat) (q : Bytes) (t : ElemTy) (xs : List Bytes) : Message :=
+  (sliceBuilder id nf ec qf q (bodyAlignedTypedSlice F t q.length xs)).build
+
+/-- `body_aligned_typed_slice` reserves `HEADER_SIZE + query.len()` of headroom so that
+`into_wire_bytes` frames in place.  Whatever capacity the body buffer ends up with (in-place branch or
+fresh buffer — C01's `intoWireBytes`), the wire bytes are `to_vec`'s; every parser of the current
+source (C01's `fromSlice`, owned and view sum forms, both build profiles) returns the request; and in
+those bytes the element block sits, bit for bit, at a frame offset that is a multiple of the element
+alignment. -/
+theorem aligned_frame_any_capacity {t : ElemTy} {xs : List Bytes} (v : Vec t t.width xs)
+    (id : Nat) (nf : Bool) (ec qf : Nat) (q : Bytes) (cap : Nat) (mode : OvMode)
+    (hid : id < 2^64) (hec : ec < 2^32) (hqf : qf < 2^16)
+    (hlen : 48 + q.length + (bodyAlignedTypedSlice F t q.length xs).length < 2^64) :
+    let m := alignedRequest id nf ec qf q t xs
+    let off := 48 + q.length + alignedDataOffset t xs.length (baseOffset F.baseTerms q.length)
+    m.intoWireBytes cap = m.toVec ∧
+    Message.fromSlice Gen.headerSumForm Gen.sliceSumForm mode (m.intoWireBytes cap) = .ok m ∧
+    Message.fromSlice Gen.headerSumForm Gen.viewSumForm mode (m.intoWireBytes cap) = .ok m ∧
+    ((m.intoWireBytes cap).drop off).take (xs.length * t.width) = xs.flatten ∧
+    off % t.align = 0 := by
+  intro m off
+  have wf : m.WF := Builder.build_wf _ hid hec hqf (by show BEVE < 2^16; decide) hlen
+  have e := intoWireBytes_eq_toVec m cap
+  refine ⟨e, ?_, ?_, ?_, ?_⟩
+  · rw [e]; exact fromSlice_toVec _ _ _ m wf
+  · rw [e]; exact fromSlice_toVec _ _ _ m wf
+  · rw [e]
+    have hb : m.toVec = (m.header.encode ++ q) ++ bodyAlignedTypedSlice F t q.length xs := rfl
+    have hl : (m.header.encode ++ q).length = 48 + q.length := by simp
+    rw [hb, show off = (m.header.encode ++ q).length +
+      alignedDataOffset t xs.length (baseOffset F.baseTerms q.length) by rw [hl]]
+    rw [← List.drop_drop, List.drop_left]
+    unfold bodyAlignedTypedSlice encodeAligned
+    rw [encodeAlignedRaw_drop, ← v.blocks.flatten_length, List.take_length]
+  · exact aligned_of_congr v.valid _ _ _ (base_congruent_to_frame_offset q.length)
+      (alignedDataOffset_aligned t xs.length _)
+
+/-- Non-vacuity: a 5-byte path, two f64, capacity smaller and larger than the frame. -/
+example : let m := alignedRequest 7 false 0 1 [0x2f, 1, 2, 3, 4] ⟨0, 3⟩ [[1, 2, 3, 4, 5, 6, 7, 8], [9, 9, 9, 9, 9, 9, 9, 9]]
+    m.intoWireBytes 0 = m.toVec ∧ m.intoWireBytes 4096 = m.toVec ∧ m.toVec.length = 48 + 5 + 3 + 1 + 7 + 16 := by
+  decide
+
+/-! ### the client entry points -/
+
+/-- Every aligned entry point of both clients (`call_typed_slice_aligned`, `…_with_timeout`) puts on
+the wire exactly the frame the buffered builder makes with the query set first — read off the current
+source: the order of the builder steps in `call_with_body_and_timeout` and the builder method each
+entry point reaches. -/
+theorem client_aligned_request_is_builder_frame (timeout : Bool) (t : ElemTy) (id : Nat) (path : Bytes)
+    (xs : List Bytes) :
+    clientRequest F F.syncClient .aligned timeout t id path xs = alignedRequest id false 0 1 path t xs ∧
+    clientRequest F F.asyncClient .aligned timeout t id path xs = alignedRequest id false 0 1 path t xs := by
+  have h1 : F.syncClient.queryFirst = true ∧ F.syncClient.alignedPlain = .aligned ∧
+      F.syncClient.alignedTimeout = .aligned := by decide
+  have h2 : F.asyncClient.queryFirst = true ∧ F.asyncClient.alignedPlain = .aligned ∧
+      F.asyncClient.alignedTimeout = .aligned := by decide
+  cases timeout <;> simp [clientRequest, clientBody, alignedRequest, h1, h2]
+
+/-- … so, served by the borrowing route from a receive buffer at address `a`, the request of every
+aligned entry point is borrowed exactly when `a` is a multiple of the element alignment, for every
+path length — and its frame survives `into_wire_bytes` at any capacity. -/
+theorem client_aligned_request_borrowable {t : ElemTy} {xs : List Bytes} (v : Vec t t.width xs)
+    (timeout : Bool) (id : Nat) (path : Bytes) (a : Nat) (C : ClientFacts)
+    (hC : C = F.syncClient ∨ C = F.asyncClient) :
+    let m := clientRequest F C .aligned timeout t id path xs
+    sliceRefHandler F t m.header.bodyFormat (a + 48 + path.length) m.body =
+      .called (if a % t.align = 0 then .borrowed xs else .owned xs) := by
+  intro m
+  have hm : m = alignedRequest id false 0 1 path t xs := by
+    rcases hC with rfl | rfl
+    · exact (client_aligned_request_is_builder_frame timeout t id path xs).1
+    · exact (client_aligned_request_is_builder_frame timeout t id path xs).2
+  rw [hm]
+  exact aligned_route_any_address v path.length a
+
+/-- The bulk entry points send the regular form, the serde one the generic form; the response of both
+bulk routes is framed by `body_typed_slice`. -/
+theorem client_bulk_request_is_regular (timeout : Bool) (t : ElemTy) (qlen : Nat) (xs : List Bytes) :
+    clientBody F F.syncClient .bulk timeout t qlen xs = bodyTypedSlice t xs ∧
+    clientBody F F.asyncClient .bulk timeout t qlen xs = bodyTypedSlice t xs ∧
+    F.respBulk = true := by
+  have h1 : F.syncClient.bulkPlain = .regular ∧ F.syncClient.bulkTimeout = .regular := by decide
+  have h2 : F.asyncClient.bulkPlain = .regular ∧ F.asyncClient.bulkTimeout = .regular := by decide
+  refine ⟨?_, ?_, by decide⟩ <;> cases timeout <;> simp [clientBody, h1, h2]
+
+/-- What goes wrong otherwise (seeded C08-B): a client that applies the body closure before the query
+pads for offset 48; with a 3-byte path the f64 payload is then borrowed at base 5, not at base 0. -/
+example : let C : ClientFacts := { F.syncClient with queryFirst := false }
+    let m := clientRequest F C .aligned true ⟨0, 3⟩ 1 [0x2f, 0x61, 0x62] [[1, 2, 3, 4, 5, 6, 7, 8]]
+    sliceRefHandler F ⟨0, 3⟩ m.header.bodyFormat (0 + 48 + 3) m.body = .called (.owned [[1, 2, 3, 4, 5, 6, 7, 8]]) ∧
+    sliceRefHandler F ⟨0, 3⟩ m.header.bodyFormat (5 + 48 + 3) m.body = .called (.borrowed [[1, 2, 3, 4, 5, 6, 7, 8]]) := by
+  decide
+
+/-! ### the dependency's layout constants -/
+
+/-- The layout constants the model hard-codes are the ones in the beve crate source the lock file
+names (header type / class codes, aligned marker, complex extension byte, the empty generic array, the
+three SIZE threshold ladders, and the table of `BeveTypedSlice` implementors with their widths). -/
+theorem beve_layout_constants :
+    let B := Gen.beveFacts
+    UInt8.ofNat (B.alignedDiscriminator * 32 + B.arrayBoolOrString * 8 + B.typeTypedArray) = alignedMarker ∧
+    [UInt8.ofNat (B.extComplex * 8 + B.typeExtension)] = (complexHeader ⟨0, 0⟩).take 1 ∧
+    [UInt8.ofNat B.typeGenericArray, 0] = emptyGenericArray ∧
+    (B.typeTypedArray, B.arrayFloat, B.arraySigned, B.arrayUnsigned) = (4, 0, 1, 2) ∧
+    B.sizeThresholds = [[6, 14, 30], [6, 14, 30], [6, 14, 30]] ∧
+    (∀ i ∈ B.impls, (ElemTy.mk i.1 i.2.1).Valid ∧ (ElemTy.mk i.1 i.2.1).width = i.2.2) ∧
+    (∀ cls, cls < 4 → ∀ code, code < 8 →
+      ((ElemTy.mk cls code).Valid ↔ (B.impls.map fun i => (i.1, i.2.1)).contains (cls, code) = true)) := by
+  decide
 
 /-! ### a whole call -/
 
